@@ -85,6 +85,94 @@ func c10Shape(d *rules.DNSRewrite) string {
 	return ""
 }
 
+// c10RefClass classifies a value text by the documented grammar: "error",
+// "empty", "rcode:N", "cname?" (a host name: accepted as a new CNAME or rejected),
+// "rr:T" (typed value, record type T; the value itself may still be rejected,
+// hence "rr:T?"), or "" when the text contains option-level escapes the
+// reference does not model.
+func c10RefClass(v string) string {
+	if strings.ContainsAny(v, "\\,$") {
+		return ""
+	}
+	parts := strings.SplitN(v, ";", 3)
+	switch len(parts) {
+	case 1:
+		if v == "" {
+			return "empty"
+		}
+		upper := true
+		for _, r := range v {
+			if r < 'A' || r > 'Z' {
+				upper = false
+			}
+		}
+		if upper {
+			switch v {
+			case "NOERROR":
+				return "empty" // response code 0 and nothing else
+			case "SERVFAIL", "NXDOMAIN", "REFUSED":
+				return fmt.Sprintf("rcode:%d", dns.StringToRcode[v])
+			}
+			return "error"
+		}
+		if ip, err := netip.ParseAddr(v); err == nil {
+			if ip.Is4() {
+				return "rr:1?"
+			}
+			return "rr:28?"
+		}
+		return "cname?"
+	case 2:
+		return "error"
+	}
+	rcode, ok := dns.StringToRcode[strings.ToUpper(parts[0])]
+	if !ok {
+		return "error"
+	}
+	if rcode != dns.RcodeSuccess {
+		return fmt.Sprintf("rcode:%d", rcode)
+	}
+	if parts[1] == "" && parts[2] == "" {
+		return "empty"
+	}
+	if strings.EqualFold(parts[1], "none") || strings.EqualFold(parts[1], "reserved") {
+		return "error"
+	}
+	rr, ok := dns.StringToType[strings.ToUpper(parts[1])]
+	if !ok {
+		return "error"
+	}
+	if rr == dns.TypeCNAME {
+		return "cname?"
+	}
+	return fmt.Sprintf("rr:%d?", rr)
+}
+
+// c10GotClass classifies a parse result the same way.
+func c10GotClass(d *rules.DNSRewrite, err error) string {
+	switch {
+	case err != nil || d == nil:
+		return "error"
+	case d.NewCNAME != "":
+		return "cname"
+	case d.RCode != 0:
+		return fmt.Sprintf("rcode:%d", d.RCode)
+	case d.RRType != 0:
+		return fmt.Sprintf("rr:%d", d.RRType)
+	}
+	return "empty"
+}
+
+func c10ClassAgrees(want, got string) bool {
+	if want == "" {
+		return true
+	}
+	if strings.HasSuffix(want, "?") {
+		return got == "error" || got == strings.TrimSuffix(want, "?")
+	}
+	return want == got
+}
+
 func c10Check(c *Ctx, v string) (accepted bool) {
 	text := "||h.test^$dnsrewrite=" + v
 	var r1, r2 *rules.NetworkRule
@@ -95,6 +183,17 @@ func c10Check(c *Ctx, v string) (accepted bool) {
 	}); p != nil {
 		c.Run.Violate(ev.Violation{Pred: "no-crash", Sig: map[string]any{"value": v}, What: fmt.Sprintf("parsing %q panics: %v", text, p), Replay: map[string]any{"value": v}})
 		return false
+	}
+	// the class of the result is a function of the text alone (whatever was parsed before)
+	{
+		var d *rules.DNSRewrite
+		if r1 != nil {
+			d = r1.DNSRewrite
+		}
+		if want, got := c10RefClass(v), c10GotClass(d, e1); !(r1 != nil && e1 == nil && d == nil) && !c10ClassAgrees(want, got) {
+			c.Run.Violate(ev.Violation{Pred: "class-determined-by-text", Sig: map[string]any{"value": v},
+				What: fmt.Sprintf("%q parses as %s (%+v, err %v), the documented grammar says %s", text, got, d, e1, want), Replay: map[string]any{"value": v}})
+		}
 	}
 	if (e1 == nil) != (e2 == nil) {
 		c.Run.Violate(ev.Violation{Pred: "deterministic", Sig: map[string]any{"value": v}, What: fmt.Sprintf("parsing %q twice: %v vs %v", text, e1, e2), Replay: map[string]any{"value": v}})
